@@ -236,7 +236,7 @@ class PVLParser(object):
             "Aggregation Statement."
         )
 
-    def parse_module(self, tokens: abc.Generator):
+    def parse_module(self, tokens: abc.Generator):  # noqa: C901
         """Parses the tokens for a PVL Module.
 
          <PVL-Module-Contents> ::=
@@ -366,11 +366,17 @@ class PVLParser(object):
                             # The Begin-Aggregation-Statement (and maybe
                             # more) has already been consumed, so the caller
                             # cannot just try some other way to parse this.
-                            tokens.throw(
-                                ValueError,
+                            msg = (
                                 f'In the Aggregation Block "{block_name}": '
-                                f"{ve}",
+                                f"{ve}"
                             )
+                            try:
+                                tokens.throw(ValueError, msg)
+                            except LexerError:
+                                raise
+                            except ValueError:
+                                # The tokens had already run out.
+                                raise ParseError(msg)
 
         return block_name, agg
 
